@@ -35,7 +35,13 @@ N=0
 for BIN in $BINS; do
   N=$((N+1))
   if [ "$BIN" = schedcheck ]; then LEVEL=3; else LEVEL=1; fi
-  $VERIF/bin/instr -repo /repo -verif $VERIF -out "$SCR/ov$LEVEL" -level $LEVEL || { echo "TOOLING-ERROR: instr failed" >&2; exit 3; }
+  FT=""
+  # thorough tier of the single-location schedule checks: struct fields of the
+  # state-bearing core types are scheduling points and race-checked too
+  if [ "$BIN" = schedcheck ] && [ "${1:-}" = thorough ] && { [ "$ID" = C12 ] || [ "$ID" = C04 ]; }; then
+    FT="-fieldtypes ${VERIF_FIELDTYPES:-core.IndexedState,core.LinearState,core.Location}"
+  fi
+  $VERIF/bin/instr -repo /repo -verif $VERIF -out "$SCR/ov$LEVEL" -level $LEVEL $FT || { echo "TOOLING-ERROR: instr failed" >&2; exit 3; }
   (cd $VERIF/harness && go build -overlay "$SCR/ov$LEVEL/overlay.json" -o "$SCR/$BIN" ./cmd/$BIN) 2> "$SCR/build.log"
   if [ $? -ne 0 ]; then
     echo "TOOLING-ERROR: harness build failed against /repo's working tree (no verdict):" >&2
